@@ -74,7 +74,7 @@ def fmt_cmd(d):
 
 def gen_scenario(rng):
     hs = [h for h in ALL_H if rng.random() < rng.choice([1.0, 0.9, 0.6])]
-    conn = rng.choice(["ok"] * 26 + ["exp"] * 4 + ["none"] * 4 + ["nocred", "nonenocred", "err:101", "err:4000",
+    conn = rng.choice(["ok"] * 26 + ["exp"] * 4 + ["none"] * 4 + ["subexp"] * 3 + ["nocred", "nonenocred", "err:101", "err:4000",
                                                             "disc:3500", "disc:3000", "gen", "expired"])
     lines = ["reset proto=%s H=%s conn=%s csr=%d rwq=%d chlimit=%d" % (
         rng.choice(["json", "pb"]), ",".join(hs) or "-", conn, rng.choice([0, 1, 1, 1, 1, 1]), rng.choice([0, 0, 1]),
